@@ -6,7 +6,9 @@
    length test, the order of the rules, the exception class) breaks these proofs. *)
 From Coq Require Import ZArith List Bool Arith String Lia.
 From QV.Model Require Import C20_Schedule C20_PySem.
-From QV.Proofs Require Import C20_Schedule C20_Tomo C20_PySem.
+From QV.Core Require Import OF Sums Mat.
+From QV.Model Require Import C20_Run.
+From QV.Proofs Require Import C20_Schedule C20_Tomo C20_PySem C20_Run C20_Exec.
 From QVGen Require Import Gen_c20_validators.
 Import ListNotations.
 
@@ -342,3 +344,30 @@ Proof.
   destruct (gen_experiment_init _ _ _ _ _) as [e' x]. cbn [fst snd] in *. subst. now destruct e.
 Qed.
 Print Assumptions gen_copy_eq.
+
+(* ------------------------------------------------------------------ executing an accepted schedule, transported *)
+(* the property's last clause about the REGENERATED calc_prob_dist: on a validated experiment without None placeholders every
+   valid index reaches compose_qoperations (with the schedule's objects in reverse order), and the distribution of a schedule
+   that ends in its POVM is normalised in the reference semantics *)
+Theorem gen_calc_executes_normalised : forall (R : CR) (dim : nat) (tr : @vec R) (O : @objects R) e n s,
+  physical dim tr O -> valid_exp e -> all_present (e_cfg e) -> nth_error (e_scheds e) n = Some s ->
+  exists t, s = sched_of t /\ gen_calc_prob_dist e (PInt (Z.of_nat n)) = CRCompose (rev t) /\
+            (ends_in_povm t = true -> lsum (run_dist dim O t) = c1 R).
+Proof.
+  intros R dim tr O e n s Ph He Hp Hn.
+  destruct (accepted_povm_schedule_executes_normalised dim tr O e n s Ph He Hp Hn) as (t & -> & E & N).
+  exists t. split; [reflexivity|]. split; [|exact N]. now rewrite (gen_calc_prob_dist_eq e _ He), E.
+Qed.
+Print Assumptions gen_calc_executes_normalised.
+
+(* ------------------------------------------------------------------ default values *)
+(* no method of Experiment, StandardQTomography or the four tomography classes has a (possibly) mutable default value: no object
+   created at definition time is shared between calls / instances *)
+Theorem gen_no_mutable_defaults : forallb (fun d => dkind_immutable (snd d)) gen_defaults = true.
+Proof. vm_compute. reflexivity. Qed.
+Print Assumptions gen_no_mutable_defaults.
+(* in particular the four object lists of Experiment.__init__ default to None (the constructor then creates a FRESH list) *)
+Theorem gen_experiment_init_defaults_none : forall p, In p ["states"; "povms"; "gates"; "mprocesses"]%string ->
+  In ("Experiment.__init__"%string, p, DNone) gen_defaults.
+Proof. intros p H. repeat (destruct H as [<-|H]; [vm_compute; tauto|]). contradiction. Qed.
+Print Assumptions gen_experiment_init_defaults_none.
